@@ -608,6 +608,8 @@ func (x *Exec) invoke(st *State, cc *ssa.CallCommon, recv Val, args []Val, pos t
 		c.assume(and(sx("<=", "0", n), sx("<=", n, sLen(p.S))))
 		c.assume(implies(sx("<", n, sLen(p.S)), not(eq(errv, "I_nil"))))
 		c.havocRegion(st, "$alloc")
+		// ghost: a failed write is remembered (C13)
+		st.cells["$wfault"] = Val{S: c.def("wf", "Bool", or(c.region(st, "$wfault"), not(eq(errv, "I_nil"))))}
 		c.note("trusted: io.Writer.Write obeys its interface contract (0<=n<=len(p), n<len(p) => err!=nil), does not modify p or the caller's private state")
 		intT := types.Typ[types.Int]
 		return Val{T: resT, Tup: []Val{{T: intT, S: c.fromIdx(intT, n)}, {T: resT.At(1).Type(), S: errv}}}
@@ -822,6 +824,30 @@ func init() {
 	}
 	intrinsics["bytes.Compare"] = heapPure("bytes_Compare", nil)
 	intrinsics["bytes.Equal"] = heapPure("bytes_Equal", nil)
+	// fmt.Fprintf / Fprint / Fprintln / io.WriteString and template execution write through w and
+	// report the first write error (trusted); the ghost fault flag records a failure
+	writeThrough := func(x *Exec, st *State, fn *ssa.Function, args []Val, pos token.Pos, resT *types.Tuple) Val {
+		c := x.c
+		x.oblige(st, "nil", pos, not(eq(args[0].S, "I_nil")), "", nil)
+		c.havocAll(st) // the writer may be one of ours: its state changes
+		x.assumeWriterInv(st, args[0])
+		x.assumeKnownObjectInvs(st)
+		res := x.results(st, resT, "wr")
+		errv := res.S
+		if len(res.Tup) > 0 {
+			errv = res.Tup[len(res.Tup)-1].S
+		}
+		st.cells["$wfault"] = Val{S: c.def("wf", "Bool", or(c.region(st, "$wfault"), not(eq(errv, "I_nil"))))}
+		c.note("trusted: " + extKey(fn) + " performs its output through w.Write and returns a non-nil error when a write failed (it may also fail for other reasons)")
+		return res
+	}
+	for _, k := range []string{"fmt.Fprintf", "fmt.Fprint", "fmt.Fprintln", "io.WriteString"} {
+		intrinsics[k] = writeThrough
+	}
+	intrinsics["(*text/template.Template).ExecuteTemplate"] = func(x *Exec, st *State, fn *ssa.Function, args []Val, pos token.Pos, resT *types.Tuple) Val {
+		return writeThrough(x, st, fn, args[1:], pos, resT)
+	}
+	intrinsics["(*text/template.Template).Execute"] = intrinsics["(*text/template.Template).ExecuteTemplate"]
 	intrinsics["errors.New"] = pureNonNilErr
 	intrinsics["fmt.Errorf"] = pureNonNilErr
 	pureFresh := func(x *Exec, st *State, fn *ssa.Function, args []Val, pos token.Pos, resT *types.Tuple) Val {
@@ -830,7 +856,7 @@ func init() {
 		return x.results(st, resT, "p")
 	}
 	for _, k := range []string{"fmt.Sprintf", "fmt.Sprint", "fmt.Sprintln", "strconv.Itoa", "strconv.ParseInt", "strconv.ParseFloat",
-		"strconv.Atoi", "strconv.ParseUint", "strings.Fields", "strings.Split", "strings.Join", "strings.TrimSpace", "strings.HasPrefix",
+		"strconv.Atoi", "strconv.ParseUint", "strings.Fields", "strings.Join", "strings.TrimSpace", "strings.HasPrefix",
 		"strings.HasSuffix", "strings.TrimPrefix", "strings.TrimSuffix", "strings.Index", "strings.IndexByte", "strings.Contains",
 		"strings.ToLower", "strings.ToUpper", "strings.Repeat", "strings.SplitN", "strings.Trim", "strings.TrimLeft", "strings.TrimRight",
 		"strings.NewReader", "bytes.NewReader", "math.Round", "math.Abs", "math.Floor", "math.Ceil",
@@ -1145,4 +1171,80 @@ func (x *Exec) recAppParamArrays(st *State, fn *ssa.Function, args []Val, rt typ
 		as = append(as, a.S)
 	}
 	return Val{T: rt, S: sx(name, as...)}
+}
+
+// assumeWriterInv: after an external function has called methods of one of our
+// writer types through an interface, the writer's type invariant still holds
+// (every method of the type is verified to preserve it; the external function
+// can only call methods).
+func (x *Exec) assumeWriterInv(st *State, w Val) {
+	if !strings.HasPrefix(w.S, "(I_P") {
+		return
+	}
+	parts := splitSexp(w.S[1 : len(w.S)-1])
+	if len(parts) != 2 {
+		return
+	}
+	for _, t := range x.p.ifaceTypes {
+		if ifaceCtorName(t) != parts[0] {
+			continue
+		}
+		pt, ok := t.(*types.Pointer)
+		if !ok {
+			return
+		}
+		nt, ok := pt.Elem().(*types.Named)
+		if !ok || nt.Obj().Pkg() == nil {
+			return
+		}
+		for _, ti := range x.p.typeInvs {
+			if ti.typ == nt.Obj().Name() && ti.pkg == nt.Obj().Pkg().Name() {
+				cl := &Clause{Kind: "invariant", Text: fmt.Sprintf("%s(w__)", ti.fn), Line: ti.line}
+				scope := x.fn
+				env := &Env{x: x, c: x.c, st: st, old: st, vars: map[string]Val{"w__": {T: t, S: parts[1]}}, fn: scope, pos: token.NoPos, ghostOnly: true}
+				func() {
+					defer func() { recover() }()
+					x.assumeG(st, x.evalClause(env, cl))
+					x.c.note("trusted: an external writer function only calls methods of " + nt.Obj().Name() + ", which preserve its invariant")
+				}()
+			}
+		}
+	}
+}
+
+// assumeKnownObjectInvs: after an external writer function ran, the type
+// invariants of all objects this function holds pointers to still hold: the
+// invariants mention only the object's own (unexported) fields, which external
+// code cannot touch and which every method of the type provably preserves.
+func (x *Exec) assumeKnownObjectInvs(st *State) {
+	seen := map[string]bool{}
+	try := func(v Val) {
+		pt, ok := v.T.(*types.Pointer)
+		if !ok || v.S == "" || seen[v.S] {
+			return
+		}
+		nt, ok := pt.Elem().(*types.Named)
+		if !ok || nt.Obj().Pkg() == nil {
+			return
+		}
+		for _, ti := range x.p.typeInvs {
+			if ti.typ == nt.Obj().Name() && ti.pkg == nt.Obj().Pkg().Name() {
+				seen[v.S] = true
+				cl := &Clause{Kind: "invariant", Text: fmt.Sprintf("w__ == nil || %s(w__)", ti.fn), Line: ti.line}
+				env := &Env{x: x, c: x.c, st: st, old: st, vars: map[string]Val{"w__": {T: v.T, S: v.S}}, fn: x.fn, pos: token.NoPos, ghostOnly: true}
+				func() {
+					defer func() { recover() }()
+					x.assumeG(st, x.evalClause(env, cl))
+				}()
+			}
+		}
+	}
+	for _, v := range x.vals {
+		try(v)
+	}
+	for k, v := range st.cells {
+		if !isRegionKey(k) && v.T != nil {
+			try(v)
+		}
+	}
 }
